@@ -1,5 +1,6 @@
 import FeatherModel.Lemmas.RawReadWrite2
 import FeatherModel.Lemmas.RawWriteRead2
+import FeatherModel.Lemmas.RawFuel
 import FeatherModel.Lemmas.RawAttrLen
 import FeatherModel.Lemmas.RawPoolCount
 import FeatherModel.Gen.RawLayouts
@@ -71,10 +72,12 @@ theorem strict_refines_read (env : Env) (fuel id : Nat) (pool : Pool) (b : Bytes
     (h : readStrict env fuel id pool b = .ok x) : read env fuel id pool b = .ok x :=
   readStrict_le_read env fuel id pool b x h
 
-/-- fuel only bounds the nesting of definitions: a successful read is unchanged by more fuel -/
-theorem read_fuel_mono (env : Env) (f g : Nat) (h : f ≤ g) (id : Nat) (pool : Pool) (b : Bytes) (x : Val × Bytes)
-    (hr : read env f id pool b = .ok x) : read env g id pool b = .ok x :=
-  readG_fuel_mono false env f g h id pool b x hr
+/-- **fuel independence**: fuel only bounds the nesting of definitions; any answer of the reader other than "out of
+fuel" (a value, an error, a panic) is its answer for every larger fuel (`read_write` gives a sufficient fuel for every
+written value: its nesting depth) -/
+theorem read_fuel_independent (env : Env) (f g : Nat) (h : f ≤ g) (id : Nat) (pool : Pool) (b : Bytes)
+    (hne : read env f id pool b ≠ .fuel) : read env g id pool b = read env f id pool b :=
+  readG_fuel_independent false env f g h id pool b hne
 
 /-! ## Part 2 — the layouts of `raw_class_file/src/lib.rs` -/
 
